@@ -48,8 +48,9 @@ def is_nontrivial(pkts, mn, mx):
 _variant = [0]
 
 
-def rt_case(pkts, mn, mx, dev, stream, tags, pre_ops=()):
-    ops = [pline(p, "p%d" % i) for i, p in enumerate(pkts)]
+def rt_case(pkts, mn, mx, dev, stream, tags, pre_ops=(), define=None):
+    """`pkts`: the packets as they are when encode is called; `define`: as they are first defined (when `pre_ops` then change them in place)"""
+    ops = [pline(p, "p%d" % i) for i, p in enumerate(define or pkts)]
     ops += ["enc e dev %d" % dev, "enc e stream %d" % stream]
     ops += list(pre_ops)
     ids = " ".join("p%d" % i for i in range(len(pkts)))
@@ -149,6 +150,44 @@ def random_batches(tier, rng, n_cases, same_version=True):
     return cases
 
 
+def inplace_batches(tier, rng, n_cases):
+    """Packets whose payload is REPLACED or RE-TAGGED IN PLACE through the reference `Packet::getPayload()` returns after the payload was
+    attached (a gateway that edits decoded packets before re-encoding them): another length across the fit / no-fit boundaries, another
+    payload type or message type.  Whatever the packet object cached about its payload (length, message type) is stale then; the encoder
+    must frame what the packet holds NOW."""
+    import copy
+    cases = []
+    for _ in range(n_cases):
+        mx = rng.choice([64, 100, 200, 1500])
+        cap = mx - 8
+        npk = rng.randrange(1, 5)
+        define, final, pre = [], [], []
+        for i in range(npk):
+            kind = rng.choice(["eth", "gen", "analog", "gen"])
+            p = proto.rand_packet(rng, kind, rng.choice([None, proto.min_len(kind) + rng.randrange(0, 40)]), ver=1)
+            q = copy.copy(p)
+            r = rng.random()
+            if r < 0.5:
+                # same type, other length: grown past one / two frames, or shrunk so that it fits
+                total = rng.choice([cap - 16 + 1, cap - 16, 2 * (cap - 16) + 3, proto.min_len(kind), max(proto.min_len(kind), cap // 2), 3 * cap])
+                total = max(total, proto.min_len(kind))
+                ty2, d2 = proto.valid_payload(rng, kind, total)
+                if kind == "gen":
+                    ty2 = p.ty
+                q.ty, q.data = ty2, d2
+                pre.append("pk plassign p%d %04x %s" % (i, q.ty, proto.hexs(q.data)))
+            elif r < 0.75 and kind == "gen":
+                # re-tagged: another message type (generic payload types only: no validator involved)
+                q.ty = rng.choice([0x0110, 0x0210, 0x0310, 0xFF10, 0x7B10])
+                pre.append("pk plsettype p%d %d" % (i, q.ty))
+            define.append(p)
+            final.append(q)
+        if not pre:
+            continue
+        cases.append(rt_case(final, rng.choice([0, 24, mx]), mx, rng.getrandbits(16), rng.getrandbits(8), ("payload-changed-in-place",), pre_ops=pre, define=define))
+    return cases
+
+
 def huge_frames(tier, rng):
     """frames longer than 65535 bytes: message headers that start at offsets >= 2^16 (a 16-bit offset or size somewhere shows here)"""
     cases = []
@@ -164,6 +203,7 @@ def gen_c01(tier, rng):
     cases = small_exhaustive(tier, rng)
     cases += huge_frames(tier, rng)
     cases += random_batches(tier, rng, 1500 if tier == "quick" else 20000)
+    cases += inplace_batches(tier, rng, 80 if tier == "quick" else 800)
     cases += history_batches(tier, rng, 300 if tier == "quick" else 3000)
     # a stale reassembly on the endpoint before the batch arrives
     for c in random_batches(tier, rng, 100 if tier == "quick" else 1000):
@@ -215,6 +255,7 @@ def gen_c07(tier, rng):
     cases = small_exhaustive(tier, rng)
     cases += huge_frames(tier, rng)
     cases += random_batches(tier, rng, 1500 if tier == "quick" else 20000, same_version=False)
+    cases += inplace_batches(tier, rng, 80 if tier == "quick" else 800)
     cases += history_batches(tier, rng, 300 if tier == "quick" else 3000)
     # empty batch
     for mx in (25, 64, 1500):
@@ -293,6 +334,17 @@ def gen_c09(tier, rng):
         pks = history_packets(rng, 4)
         ops = [pline(p, "p%d" % i) for i, p in enumerate(pks)] + enc_history_ops(rng, 4, 30)
         cases.append(Case("h", ops, nontrivial=True, tags=("rand-hist",)))
+    # packets re-tagged IN PLACE (another message type through getPayload().setType) between encode calls: the frame header must announce
+    # the type the packet has when it is encoded
+    for _ in range(40 if tier == "quick" else 400):
+        pks = [gpkt(rng.choice([5, 20, 70]), rng.randrange(251), ty=rng.choice([0x0110, 0x0210, 0x0310])) for _i in range(3)]
+        ops = [pline(p, "p%d" % i) for i, p in enumerate(pks)] + ["enc e dev %d" % rng.getrandbits(16), "enc e stream %d" % rng.getrandbits(8)]
+        for _k in range(rng.randrange(2, 5)):
+            if rng.random() < 0.6:
+                ops.append("pk plsettype p%d %d" % (rng.randrange(3), rng.choice([0x0110, 0x0210, 0x0310, 0xFF10])))
+            ops.append("enc e encode %d 64 %s" % (rng.choice([0, 64]), " ".join("p%d" % rng.randrange(3) for _j in range(rng.randrange(1, 4)))))
+            ops.append("enc e seq")
+        cases.append(Case("h", ops, nontrivial=True, tags=("retagged-in-place",)))
     # counter wrap: start close to the wrap by many small encodes
     n = 70000 if tier == "thorough" else 66000
     ops = [pline(gpkt(5, 1), "p0"), "enc e dev 1"]
@@ -348,12 +400,16 @@ def gen_c10(tier, rng):
 # ---- predicates on the implementation's output, evaluated by the Lean driver (`chk` operations) -------
 
 def _chk_ops(prop, case, im):
-    ops = [o for o in case.ops if o.startswith("pkt ")]
+    # packet definitions and in-place modifications (`pk ...`) stay where they are, so that every check sees the packets as they were
+    # when the call was made
+    ops = []
     n = 0
     dev = stream = 0
     last_ids = []
     for o, l in zip(case.ops, im):
         w = o.split(" ")
+        if w[0] == "pkt" or (w[0] == "pk" and w[1] in ("plassign", "plsettype", "plwrite", "set", "setpayload")):
+            ops.append(o)
         if w[0] == "enc" and len(w) > 3 and w[2] == "dev":
             dev = int(w[3])
         if w[0] == "enc" and len(w) > 3 and w[2] == "stream":
